@@ -94,6 +94,7 @@ class Rig(object):
         self.ping_ids = []       # real ping id -> ordinal = index
         self.app_seq = 0
         self.down_writes = []    # property oracle: writes to a dispatcher that is not up
+        self.write_log = []      # (dispatcher index, its phase at the write, bytes) for every sendData
         self.keys_pending = None # (dispatcher index, stanza id) of the unanswered set-keys iq, if any
         self.keys_uploads = 0
         self.store_dirty = False
@@ -310,6 +311,8 @@ class Rig(object):
 
     def on_write(self, disp, data):
         """classify a write; the segment layer sends a 3-byte length then the frame"""
+        # every sendData, with the phase of THAT dispatcher instance (new = requested, connecting, up, closed = down)
+        self.write_log.append((disp.idx, disp.phase, len(data)))
         if disp.phase != "up":
             self.down_writes.append((disp.idx, disp.phase, data[:16].hex()))
         if data == self.m["YowNoiseLayer"].HEADER and not disp.raw:
